@@ -393,16 +393,21 @@ def spec_zone_forms(ctx):
     helpers = {k: v for k, v in kernels.define(SPEC_ZONE_HELPERS).items() if k in ("zone_of_mem", "loaded")}
     n_ok = 0
     # every kernel is defined for spec A, then B, then A again, over ONE set of helper kernels
-    for dec, how, which in [(d, h, w) for d in ("move", "kernel", "tweezer") for h in ("run-time lookup", "(arch_spec=S)", "(arch_spec=S, fold=False)") for w in ("A", "B", "A")]:
+    # (a tweezer kernel is also evaluated by the interpreter that traces device functions: "traced")
+    for dec, how, which in [(d, h, w) for d in ("move", "kernel", "tweezer") for h in ("run-time lookup", "(arch_spec=S)", "(arch_spec=S, fold=False)") + (("traced",) if d == "tweezer" else ())
+                            for w in ("A", "B", "A")]:
         S, want = worlds[which]
         if True:
-            src = SPEC_ZONE_SRC.replace("{DEC}", dec + ("" if how == "run-time lookup" else how))
+            src = SPEC_ZONE_SRC.replace("{DEC}", dec + ("" if how in ("run-time lookup", "traced") else how))
             rep = {"spec_zone_src": src, "decorator": dec, "how": how, "spec": which}
             ctx.evaluations += 1
             try:
                 m = kernels.define(src, kernel=prelude.kernel, S=S, **helpers)["main"]
                 if how == "run-time lookup":
                     got = ArchSpecInterpreter(m.dialects, arch_spec=S).run(m, (ilist.IList(more),))
+                elif how == "traced":
+                    from bloqade.shuttle.codegen.taskgen import TraceInterpreter
+                    got = TraceInterpreter(S).run(m, (ilist.IList(more),))
                 else:
                     got = m(ilist.IList(more))
             except Exception as e:
@@ -418,6 +423,32 @@ def spec_zone_forms(ctx):
                 n_ok += 1
                 ctx.nt(("spec-zone-form", dec, how, which))
     ctx.count("kernels reading filled-grid zones of the spec x kernel kinds x lookup routes: agree with the methods", n_ok)
+    # two specs that differ ONLY in whether the zone "mem" is a sub-grid view or a filled grid over that very view, used one after the other
+    big = Grid.from_positions([0.0, 1.0, 2.5, 4.0, 6.0], [0.0, 2.0, 5.0])
+    view = big[1:4, :]
+    fview = FGc.vacate(view, [(0, 1), (2, 2)])
+    mk = lambda z: ArchSpec(layout=Layout({"mem": z, "plain": Grid.from_positions([10.0, 11.0], [0.0])}, {"mem"}, {"mem"}, {"plain"}, special_grid={}))
+    V, W = mk(view), mk(fview)
+    vsrc = "@{DEC}\ndef main(more: ilist.IList[tuple[int, int], Any]):\n    z = spec.get_static_trap(zone_id=\"mem\")\n    return (z, filled.vacate(z, more), z[0:2, 1], filled.shift(filled.vacate(z, []), 1.0, 0.0))\n"
+    for dec in ("move", "kernel", "tweezer"):
+        for order in (("V", "W", "V", "W"), ("W", "V")):
+            for step, name in enumerate(order):
+                Sx, zx = {"V": (V, view), "W": (W, fview)}[name]
+                want = (zx, FGc.vacate(zx, more), zx[0:2, 1], FGc.vacate(zx, []).shift(1.0, 0.0))
+                rep = {"spec_zone_src": vsrc.replace("{DEC}", dec + "(arch_spec=S)"), "decorator": dec, "how": "view, then filled over the view", "history": list(order), "step": step}
+                ctx.evaluations += 1
+                try:
+                    got = kernels.define(vsrc.replace("{DEC}", dec + "(arch_spec=S)"), kernel=prelude.kernel, S=Sx)["main"](ilist.IList(more))
+                except Exception as e:
+                    ctx.fail({"kind": "kernel-raises", "decorator": dec, "spec_zone": "view / filled view history"}, rep, f"@{dec}(arch_spec=...) step {step} of {order}: raises {type(e).__name__}: {str(e)[:100]}")
+                    continue
+                bad = [nm for nm, x, y in zip("zabc", got, want) if show_val(x) != show_val(y)]
+                if bad:
+                    ctx.fail({"kind": "kernel-vs-method", "decorator": dec, "spec_zone": "view / filled view history"}, rep,
+                             f"@{dec}(arch_spec=...) compiled for specs {order} in turn, step {step} (zone 'mem' is {'a view' if name == 'V' else 'a FILLED grid over that view'}): values {bad} differ from the methods, "
+                             f"e.g. {show_val(got['zabc'.index(bad[0])])[:90]} instead of {show_val(want['zabc'.index(bad[0])])[:90]}")
+                else:
+                    ctx.nt(("view-filled-history", dec, order, step))
 
 
 def translated_filled_grid(ctx):
